@@ -357,8 +357,10 @@ pub fn loan_oracles(cx: &mut Cx, w: &World, h: &VH, f: &Fee3, amount: u128, scri
             }
             // known-finding class: with nested loans the outermost loan's own fees are paid but the
             // inner loans' fees can be offset against the outer repayment
+            let inner_pf: u128 = loans.iter().skip(1).map(|l| fee_of(f.protocol, *l) + fee_of(f.swap, *l)).sum();
             let outer_paid = post.vault_bal + (post.collector - pre.collector) >= pre.vault_bal + fee_of(f.protocol, amount) + fee_of(f.swap, amount);
-            let sig = if nested && outer_paid { "nested-loan-inner-fees-offset" } else { "" };
+            let shortfall_is_inner_fees = post.vault_bal + (post.collector - pre.collector) + inner_pf >= pre.vault_bal + p + fl;
+            let sig = if nested && outer_paid && shortfall_is_inner_fees { "nested-loan-inner-fees-offset" } else { "" };
             // (this clause belongs to C06; the C05 BFS passes prefix "c05:" and relies on the share-price oracle)
             cx.check_sig("loan.vault_balance_grows_by_all_fees", sig, prefix == "c05:" || post.vault_bal + (post.collector - pre.collector) >= pre.vault_bal + p + fl, || {
                 format!(
@@ -480,6 +482,8 @@ impl Scenario for VaultScn {
             let exact_outer = outer + fee_of(f.protocol, outer) + fee_of(f.swap, outer) + fee_of(f.burn, outer);
             let nest = Step::Nested { amount: inner, sub: vec![Step::Repay(RepayKind::Exact)] };
             nested_scripts.push((outer, vec![nest.clone(), Step::Repay(RepayKind::Exact)]));
+            nested_scripts.push((outer, vec![nest.clone(), Step::Deposit(1000), Step::Repay(RepayKind::Exact)]));
+            nested_scripts.push((outer, vec![Step::Deposit(1000), Step::Repay(RepayKind::Exact)]));
             nested_scripts.push((outer, vec![nest, Step::Repay(RepayKind::Custom(exact_outer.saturating_sub(inner_pf) as u64))]));
         }
         if bal > 0 {
@@ -659,8 +663,22 @@ impl Scenario for VaultScn {
         if price_oracles && pre.lp_supply > 0 && post.lp_supply > 0 {
             let lhs = b(post.vault_bal - post.pending.min(post.vault_bal)) * b(pre.lp_supply);
             let rhs = b(pre.vault_bal - pre.pending) * b(post.lp_supply);
-            let nested = matches!(a, VAct::Loan { script, .. } if script.iter().any(|s| matches!(s, Step::Nested { .. })));
-            cx.check_sig("share_price.non_decreasing", if nested { "nested-loan-inner-fees-offset" } else { "" }, lhs >= rhs, || {
+            // known-finding class: a nested loan whose inner protocol+flash fees were offset against the outer
+            // repayment. It applies only if no shares were minted or burned and the shortfall is at most the
+            // inner loans' protocol fees (the ledger grows by them, the balance does not).
+            let mut sig = "";
+            if let VAct::Loan { amount, script } = a {
+                if script.iter().any(|s| matches!(s, Step::Nested { .. })) && post.lp_supply == pre.lp_supply {
+                    let f = current_fees(w, h);
+                    let outer: u128 = amount.parse().unwrap_or(0);
+                    let inner_p: u128 = loans_in(outer, script).iter().skip(1).map(|l| fee_of(f.protocol, *l)).sum();
+                    let lhs2 = b(post.vault_bal + inner_p - post.pending.min(post.vault_bal)) * b(pre.lp_supply);
+                    if lhs2 >= rhs {
+                        sig = "nested-loan-inner-fees-offset";
+                    }
+                }
+            }
+            cx.check_sig("share_price.non_decreasing", sig, lhs >= rhs, || {
                 format!("{:?}: backing per share fell: ({} - {})/{} -> ({} - {})/{}", a, pre.vault_bal, pre.pending, pre.lp_supply, post.vault_bal, post.pending, post.lp_supply)
             });
         }
